@@ -390,6 +390,21 @@ def make_methods(log: Log, is_async: bool) -> Dict[str, Callable[..., Any]]:
     pd_span.__annotations__ = {'d': _t.Annotated[_dt.timedelta, _pd.Field(gt=_dt.timedelta(0))]}
     fac['pd_span'] = pd_validator.validate(pd_span)
 
+    def pd_asis(a, b=0):
+        log.calls.append(('pd_asis', (a, b), {}))
+        return ['pd_asis', a, b]
+
+    # the validator in its non-coercing mode: arguments reach the method as sent, omitted ones take their defaults
+    pd_asis.__annotations__ = {'a': int, 'b': int}
+    fac['pd_asis'] = _vpd.PydanticValidator(coerce=False).validate(pd_asis)
+
+    def rpc_ping(a=0):
+        # registered under a name inside the namespace the specification reserves for extensions: a method like any other
+        log.calls.append(('rpc.ping', (a,), {}))
+        return ['rpc.ping', a]
+
+    fac['rpc.ping'] = rpc_ping
+
     def pd_kw(a, **kw):
         # variadic keywords under the pydantic validator (only used by C13's used-vs-fresh comparison)
         log.calls.append(('pd_kw', (a,), dict(kw)))
@@ -558,7 +573,7 @@ def make_broken_view(log: Log, is_async: bool):
 
 METHOD_NAMES = ('js_checked', 'js_loose', 'slowfail', 'byid', 'wrapped', 'whoami', 'ctxp', 'slow', 'fac1', 'fac2', 'ok', 'noargs', 'echo', 'kwonly', 'rpcerr', 'typed', 'boom', 'ctxm', 'view.vm', 'typedctor', 'raiselib', 'pd_pos', '_under',
                 'ns._dotted', 'cowrapped', 'js_draft4', 'window', 'mutate', 'broken.vm', 'odd_defaults', 'tc_only',
-                'pd_strip', 'view.cm', 'view.sm', 'cnt.bump', 'pd_even', 'js_list', 'ctxm_plain', 'pd_span', 'view.note')
+                'pd_strip', 'view.cm', 'view.sm', 'cnt.bump', 'pd_even', 'js_list', 'ctxm_plain', 'pd_span', 'view.note', 'pd_asis', 'rpc.ping')
 
 
 def build_registry(log: Log, coroutines: bool) -> 'pjrpc.server.MethodRegistry':
